@@ -133,6 +133,18 @@ func writeCounterexample(dir string, v *Violation, r *entryResult, lc LoadConfig
 	os.WriteFile(filepath.Join(dir, "replay.sh"), []byte(script), 0o755)
 }
 
+func replayMatches(v *Violation, s string) bool {
+	switch v.Kind {
+	case "violation":
+		return strings.Contains(s, "VERIF-ASSERT-FAILED label="+v.Label)
+	case "panic":
+		return strings.Contains(s, "panic:") || strings.Contains(s, "VERIF-PANIC") || strings.Contains(s, "fatal error:")
+	case "deadlock", "budget":
+		return strings.Contains(s, "all goroutines are asleep") || strings.Contains(s, "test timed out") || strings.Contains(s, "VERIF-TIMEOUT")
+	}
+	return false
+}
+
 // replayNative runs the generated test; the counterexample is confirmed when
 // the real build fails in the way the symbolic run predicted.
 func replayNative(dir string, v *Violation, lc LoadConfig) (bool, string) {
@@ -145,6 +157,18 @@ func replayNative(dir string, v *Violation, lc LoadConfig) (bool, string) {
 	out, err := cmd.CombinedOutput()
 	os.WriteFile(filepath.Join(dir, "replay.log"), out, 0o644)
 	s := string(out)
+	if v.Multi && !replayMatches(v, s) {
+		// second mode for schedule counterexamples: block in the real primitives
+		cmd2 := exec.CommandContext(ctx, "go", "test", "-vet=off", "-count=1", "-timeout", "60s",
+			"-overlay", filepath.Join(dir, "overlay.json"), "-run", "^TestVerifReplay$", "-v", ".")
+		cmd2.Dir = lc.PkgDir
+		cmd2.Env = append(os.Environ(), "GOPROXY=off", "GOSX_REPLAY_MODE=block")
+		out2, err2 := cmd2.CombinedOutput()
+		os.WriteFile(filepath.Join(dir, "replay-blockmode.log"), out2, 0o644)
+		if replayMatches(v, string(out2)) {
+			s, err = string(out2), err2
+		}
+	}
 	switch v.Kind {
 	case "violation":
 		if strings.Contains(s, "VERIF-ASSERT-FAILED label="+v.Label) {
